@@ -325,6 +325,9 @@ STYLES = {
     'under': ('z_z%s', 'z_z%s'),          # _ and ^ are ordinary characters in a label name, in math mode as well
     'caret': ('z^z%s', 'z^z%s'),
     'macro': ('zz\\zzp %s', 'zzq%s'),      # the name is expanded: \def\zzp{q}
+    'blank': ('z z%s', 'z z%s'),            # a blank, a comma, a hyphen are ordinary characters of a label name too
+    'comma': ('z,z%s', 'z,z%s'),
+    'hyphen': ('z-z%s', 'z-z%s'),
 }
 
 
@@ -531,7 +534,7 @@ def run(tier, seed, rep):
         if k_ != 'sub':
             blocks.append((('sec', 'eq', k_), 1, 'rerun'))
     # spellings of the label name: every single object (and a few pairs) with one reference, each spelling
-    for style in ('under', 'caret', 'macro'):
+    for style in ('under', 'caret', 'macro', 'blank', 'comma', 'hyphen'):
         for objs in [(k_,) for k_ in kinds if k_ != 'sub'] + [('sec', 'eq'), ('eq', 'row2'), ('sec', 'sub')]:
             blocks.append((objs, 1 if quick else 2, style))
     blocks = core.rotate(blocks, seed)
